@@ -577,13 +577,30 @@ def _raw_offset(ctx, f, src):
     return None
 
 
+def _type_texts(ctx, f, ty, depth=0):
+    """Texts (temporaries inlined) of the values a trace-type expression can
+    take: a variable with several definitions (`t = name if traced else
+    None`) stands for each of them."""
+    if isinstance(ty, ast.IfExp):
+        return _type_texts(ctx, f, ty.body, depth) + _type_texts(ctx, f, ty.orelse, depth)
+    if isinstance(ty, ast.Name) and depth < 3:
+        facts, is_param = ctx.ty.facts_at(f, ty.id, ty)
+        vals = [fa.value for fa in facts if fa.kind == "expr" and not fa.path]
+        if not is_param and vals and len(vals) == len(facts) and len(vals) > 1:
+            out = []
+            for v in vals:
+                out.extend(_type_texts(ctx, f, v, depth + 1))
+            return out
+    return [pat.inline(ctx, f, ty).replace(" ", "")]
+
+
 def _classify_pos(ctx, f, call):
     """('POS'|'ORD'|'DEST'|None, explanation)"""
     pos = call.args[2] if len(call.args) > 2 else pat.kwarg(call, "pos")
     ty = pat.kwarg(call, "type_", 3)
     if ty is not None:
-        tt = pat.inline(ctx, f, ty).replace(" ", "")
-        if tt.startswith(("'populate_read_'", "'populate_write_'")):
+        tts = [t for t in _type_texts(ctx, f, ty) if t != "None"]
+        if tts and all(t.startswith(("'populate_read_'", "'populate_write_'")) for t in tts):
             return "DEST", "destination-side populate address (staging exemption)"
     if pos is None:
         return None, "no position argument"
@@ -781,17 +798,24 @@ def _accessor_refreshes(ctx, callee):
 def r4_point(ctx):
     I = "core/iterators.py:"
     for name in ("iterRange", "iterRangeShape", "iterRangeShapeRef"):
-        f = ctx.func(I + name)
+        f0 = ctx.func(I + name)
+        coll, rank = _collect_names(ctx, f0)
+        ctx.require(coll and rank, "C16.R4: %s does not obtain (collecting, rank) "
+                    "from _prep_metrics_inc" % name)
+        # the function as it reads while collecting with tick=True
+        from ..symcase import case_view, names_decider
+        case = {c: True for c in coll}
+        if "tick" in f0.all_param_names():
+            case["tick"] = True
+        f = case_view(f0, names_decider(case), "collecting+tick")
         ys = pat.yields(f)
-        ctx.require(len(ys) == 1, "C16.R4: %s must have one yield" % name)
+        ctx.require(len(ys) == 1, "C16.R4: %s must have one yield (while collecting "
+                    "with tick=True)" % name)
         y = enclosing_stmt(ys[0])
         yv = ys[0].value
         ctx.require(isinstance(yv, ast.Call) and yv.args, "C16.R4: %s does not "
                     "yield CoordPayload(coord, payload)" % name)
         cvar = text(yv.args[0])
-        coll, rank = _collect_names(ctx, f)
-        ctx.require(coll and rank, "C16.R4: %s does not obtain (collecting, rank) "
-                    "from _prep_metrics_inc" % name)
         loops = [a for a in _anc(y) if isinstance(a, ast.For)]
         ctx.require(loops, "C16.R4: yield of %s is not in a loop" % name)
         loop = loops[0]
